@@ -391,6 +391,44 @@ func main() {
 	}
 	_ = d2
 	switch scenario {
+	case "joincrash":
+		// the joining process dies inside the hand-shake: after the members have recorded it, before it
+		// reports itself ready.  It is started again with the same join list (as a supervisor would)
+		d := mk(4, "127.0.0.1:"+a.port)
+		d.joinAttempt = true
+		done := make(chan bool, 1)
+		go func() { done <- d.start("VERIF_JOIN_DELAY_MS=1500") }()
+		dl := time.Now().Add(10 * time.Second)
+		seen := false
+		for time.Now().Before(dl) && !seen {
+			if m, err := members(a); err == nil {
+				_, seen = m["4"]
+			}
+			time.Sleep(20 * time.Millisecond)
+		}
+		emit(event{"ev": "joinseen", "node": 4, "seen": seen})
+		if d.cmd != nil && d.cmd.Process != nil {
+			d.cmd.Process.Signal(syscall.SIGKILL)
+		}
+		if <-done {
+			// it had already reported ready: an acknowledged join, the node is gone now
+			d.alive = false
+		}
+		observe(ps, "joinattempt")
+		d.joinAttempt = false
+		ok := d.start()
+		okv := 0
+		if ok {
+			okv = 1
+			ps = append(ps, d)
+		}
+		emit(event{"ev": "joined", "node": 4, "addr": ":" + d.port, "ok": okv})
+		observe(ps, "join")
+		create(d, 2, 3)
+		observe(ps, "create")
+		a.kill()
+		a.start()
+		observe(ps, "restart")
 	case "joinfail":
 		// the join handshake is lost: every address of the join list is unreachable.  The node either
 		// reports the failure (its process ends: no join was acknowledged) or claims READY - then the
